@@ -115,6 +115,8 @@ Choices ==
          {[Node(0, "g") EXCEPT !.loc = l] : l \in {<<>>, <<<<"a", 1>>>>, <<<<"b", 2>>>>}}
          \* a group whose own attribute reads a variable that the group rebinds for its content
          \cup {[Node(0, "g") EXCEPT !.loc = <<<<"a", 1>>>>, !.rd = r] : r \in {"a", "b"}}
+         \* a group attribute given through the outer variable of its own name: a="{{$a + 1}}"
+         \cup {[Node(0, "g") EXCEPT !.loc = <<<<"a", 101>>>>]}
          \cup {[Node(0, "leaf") EXCEPT !.rd = r, !.ref = t] :
                    r \in {"a", "b", "u"}, t \in {0} \cup ((Sz + 2)..MaxNodes)}
          \cup {[Node(0, "var") EXCEPT !.asg = a] :
@@ -151,7 +153,8 @@ Choices ==
          \cup {[Node(0, "leaf") EXCEPT !.rd = r, !.ref = t] : r \in {"-", "a", "b"}, t \in {0, Sz + 2, Sz + 3} \cap (0..MaxNodes)}
          \cup {[Node(0, "reuse") EXCEPT !.href = h, !.loc = l] :
                    h \in ExistingIds({"leaf", "g"}) \cup {Sz + 2},
-                   l \in {<<>>, <<<<"a", 2>>>>, <<<<"a", 3>>, <<"b", 1>>>>}}
+                   \* (<<"a", 102>>: a="{{$a + 2}}" - evaluated where the reuse element stands, then bound)
+                   l \in {<<>>, <<<<"a", 2>>>>, <<<<"a", 3>>, <<"b", 1>>>>, <<<<"a", 102>>>>}}
          \cup {[Node(0, "reuse") EXCEPT !.href = h, !.loc = <<<<"a", 2>>>>, !.ref = t] :
                    h \in ExistingIds({"leaf"}), t \in (ExistingIds({"leaf"}) \cup {Sz + 2, Sz + 3}) \cap (1..MaxNodes)}
          \cup {[Node(0, "var") EXCEPT !.asg = <<<<"a", Lit(0)>>>>]}
@@ -430,7 +433,7 @@ LeafResolve ==
 \* before its locals are pushed for the descendants
 GroupPush ==
     /\ Body("g")
-    /\ scopes' = Append(scopes, ScopeOf(Top.nd.loc))
+    /\ scopes' = Append(scopes, ScopeOf(Resolve(Top.nd.loc, scopes)))
     /\ LET own == IF Top.nd.rd = "-" THEN <<>>
                   ELSE <<[id |-> Top.nd.id, v |-> Lookup(scopes, Top.nd.rd), x |-> 0, stale |-> FALSE]>>
        IN stack' = Append(SetTopFrame([Top EXCEPT !.ph = "wait", !.acc = own]), NewPe(Top.nd.ch))
@@ -545,9 +548,9 @@ ReusePush ==
            h == f.nd.href
        IN IF h \notin omap
           THEN /\ FailWith("ref")
-          ELSE /\ scopes' = Append(scopes, ScopeOf(f.nd.loc))
+          ELSE /\ scopes' = Append(scopes, ScopeOf(Resolve(f.nd.loc, scopes)))
                /\ stack' = Append(SetTopFrame([f EXCEPT !.ph = "wait"]),
-                                  [NewEl(Instance(NodeById(doc, h), f.nd), TRUE) EXCEPT !.sh = Len(scopes) + 1])
+                                  [NewEl(Instance(NodeById(doc, h), [f.nd EXCEPT !.loc = Resolve(@, scopes)]), TRUE) EXCEPT !.sh = Len(scopes) + 1])
                /\ UNCHANGED <<ret, depth, inSpecs>>
     /\ UNCHANGED <<doc, lim, lim0, phase, emap, omap, rng, result, out, gx, px, passes>>
 
